@@ -56,12 +56,6 @@ Theorem C08_userlist_repeat_refuted : exists c, In c all_cells /\ cell_ok H c = 
 Proof. witness (cell_of 1 Mul (Obj SpatialVelocity) KInt). Qed.
 Print Assumptions C08_userlist_repeat_refuted.
 
-(* int * (3-valued Twist3) is list repetition: __rmul__ multiplies right.S, which is a Python list for a multi-valued twist
-   (fix 11978d3 repaired the single-valued case only; see Props/C08_clauses.v: C08_scalar_times_twist_single) *)
-Theorem C08_twist_rmul_multi_refuted : exists c, In c all_cells /\ cell_ok H c = false /\ model H c = Value (RObj Twist3) ListOp /\ spec_of H c = May (RObj Twist3).
-Proof. witness (cell_of 3 Mul KInt (Obj Twist3)). Qed.
-Print Assumptions C08_twist_rmul_multi_refuted.
-
 (* DualQuaternion * 2.5 returns None *)
 Theorem C08_dq_mul_none_refuted : exists c, In c all_cells /\ cell_ok H c = false /\ model H c = ReturnsNone /\ spec_of H c = MustRaise.
 Proof. witness (cell_of 1 Mul (Obj DualQuaternion) KFloat). Qed.
